@@ -31,7 +31,7 @@ def gen_pixels(tier, rng):
         for v in values:
             for _ in range(2 if tier == "quick" else 4):
                 n += 1
-                (sw, sh, dw, dh) = geoms[n % len(geoms)]
+                (sw, sh, dw, dh) = rz.pick(n, 118, geoms)
                 flt = rz.BUILTIN[n % 7]
                 alg, m = algs[n % 4]
                 comps = [v] * nc
@@ -42,7 +42,7 @@ def gen_pixels(tier, rng):
                     comps[-1] = info["max"] if info["comp"] != "f32" else rz.f32bits(1.0)
                 keys = [rz.f32key(__import__("struct").unpack("<f", __import__("struct").pack("<I", c))[0]) for c in comps] if info["comp"] == "f32" else comps
                 box, Q = (None, 1) if n % 4 else ((1, 1, 2 * sw - 2, 2 * sh - 1), 2)
-                cases.append(rz.resize_case(pt, sw, sh, dw, dh, alg=alg, flt=flt, m=m, alpha=alpha, box=box, Q=Q, cpu=rz.CPUS[n % 3],
+                cases.append(rz.resize_case(pt, sw, sh, dw, dh, alg=alg, flt=flt, m=m, alpha=alpha, box=box, Q=Q, cpu=rz.pick(n, 117, rz.CPUS),
                                             src_c={"g": "const", "v": comps}, log=("minmax",),
                                             chk=("pipeline", "ret_ok", "uniform_mm_ulp1" if info["comp"] == "f32" else "uniform_mm"),
                                             echo={"v": keys}))
